@@ -267,8 +267,9 @@ pub fn rows(args: &[String]) -> i32 {
     let mut out = Out::new(&arg_value(args, "--out").unwrap_or("-".into()));
     let mut rng = Rng::new(seed ^ 0xC18);
     // (the first two go to the f64 quantities as well; plain integers beyond the i32 / i64 range are ordinary decimal literals)
-    let lits: Vec<&str> = if thorough { vec!["1", "2.5", "-4e3", "1e-3", "0", "+12.75E+2", "3000000000", "-123456789012345678901", "5.", "-.5"] }
-                          else { vec!["1", "2.5", "-4e3", "1e-3", "0", "3000000000", "123456789012345678901", "-.5"] };
+    let pad256 = format!("{}1", "0".repeat(255));          // 256 digits, value 1
+    let lits: Vec<&str> = if thorough { vec!["1", "2.5", "-4e3", "1e-3", "0", "+12.75E+2", "3000000000", "-123456789012345678901", "5.", "-.5", "1E000003", &pad256] }
+                          else { vec!["1", "2.5", "-4e3", "1e-3", "0", "3000000000", "123456789012345678901", "-.5", "1E000003", &pad256] };
     macro_rules! both {
         ($q:expr, $name:ident) => {{
             let c = candidates($q, &mut rng, thorough);
